@@ -32,6 +32,14 @@ META = {
 
 
 EVENTS = ("before_flush", "after_flush", "after_flush_postexec")
+MAPPER_EVENTS = ("after_insert", "after_update", "after_delete")
+MODES = ("no_rollback", "nested")
+
+
+def split_fault(fault):
+    """(fault tuple for lib_graph.fault_case, no_rollback, nested) of a recorded fault list"""
+    f = [x for x in fault if x not in MODES]
+    return tuple(f), "no_rollback" in fault, "nested" in fault
 
 
 # ------------------------------------------------------------------------------ part A
@@ -96,7 +104,7 @@ def inserted_and_deleted(setup, work):
 
 
 def rekeyed_created(setup, work):
-    """final labels of the instances the transaction under test creates AND whose primary key
+    """labels of the instances the transaction under test creates AND whose primary key
     it changes (root cause of finding C35 instance-ends-detached...: _restore_snapshot puts the
     old key back on an instance it has just expunged to transient)"""
     created, out = set(), set()
@@ -106,8 +114,7 @@ def rekeyed_created(setup, work):
         elif m[0] == "rename":
             for st in (created, out):
                 if m[1] in st:
-                    st.discard(m[1])
-                    st.add(m[2])
+                    st.add(m[2])  # every name the instance carries (the failure may come before the rename)
         elif m[0] == "setkey" and m[1] in created:
             out.add(m[1])
     return out
@@ -132,7 +139,7 @@ def _worker(job):
     rng = random.Random(seedstr)
     out = []
     for _ in range(n):
-        prof = rng.choice(["mixed", "o2m", "tree", "m2m", "cycle", "inherit", "oneway", "graph", "unit", "peer", "owner", "composite"])
+        prof = rng.choice(["mixed", "o2m", "tree", "m2m", "cycle", "inherit", "oneway", "graph", "unit", "peer", "owner", "composite", "chain"])
         setup, work = G.gen_fault_case(rng, prof)
         try:
             ref = G.fault_case(setup, work, ("dml", 10 ** 9))
@@ -144,6 +151,10 @@ def _worker(job):
             ks = list(range(nd)) if all_positions else sorted(rng.sample(range(nd), min(nd, 2)))
             faults += [("dml", k) for k in ks]
         faults.append(("event", rng.choice(EVENTS), rng.randint(0, 1)))
+        # between two statements of a flush; and faults that are no Exception (KeyboardInterrupt class)
+        faults.append(("mapper", rng.choice(MAPPER_EVENTS), rng.randint(0, 2)))
+        faults.append(("mapper", rng.choice(MAPPER_EVENTS), rng.randint(0, 2), "base"))
+        faults.append(("event", rng.choice(EVENTS[1:]), rng.randint(0, 1), "base"))
         if rng.random() < 0.5:
             kinds = sorted({m[1] for m in work if m[0] == "new"})
             taken = [m[2] for rd in setup for m in rd["muts"] if m[0] == "new"]
@@ -158,11 +169,19 @@ def _worker(job):
             if f[0] == "poison":
                 w = work[: f[1]] + [["poison", f[2], f[3]]] + work[f[1]:]
                 ff = ("poison",)
+            # how the application reacts: rollback() (default), going on with commit() without a
+            # rollback, or - the work running in a SAVEPOINT, flushed after every step - rolling
+            # back the SAVEPOINT only
+            mode = rng.choice(["", "", "no_rollback", "nested"]) if ff[0] != "poison" else ""
+            if "base" in ff and mode == "":
+                mode = "no_rollback"
+            if ff[0] == "event" and ff[1] == "before_flush" and mode == "no_rollback":
+                mode = ""  # raised before the flush did anything: the session is not failed, commit() may go on
             try:
-                o = G.fault_case(setup, w, ff)
+                o = G.fault_case(setup, w, ff, no_rollback=mode == "no_rollback", nested=mode == "nested")
             except RuntimeError:
                 continue
-            out.append((prof, setup, w, list(ff), nd, o.get("error"), verdict(o), cause_suffix(setup, w, o)))
+            out.append((prof, setup, w, list(ff) + ([mode] if mode else []), nd, o.get("error"), verdict(o), cause_suffix(setup, w, o)))
     return out
 
 
@@ -178,7 +197,8 @@ def run_part_a(ctx, deep=False):
         for prof, setup, work, fault, nd, err, bad, insdel in chunk:
             ctx.case((setup, work, fault), nontrivial=err is not None)
             ctx.count("A:profile=" + prof)
-            ctx.count("A:fault=" + fault[0] + ("" if fault[0] != "event" else ":" + fault[1]))
+            ctx.count("A:fault=" + fault[0] + ("" if fault[0] not in ("event", "mapper") else ":" + fault[1]) + (":BaseException" if "base" in fault else ""))
+            ctx.count("A:reaction=" + ("commit-without-rollback" if "no_rollback" in fault else "savepoint-rollback" if "nested" in fault else "rollback"))
             ctx.count("A:outcome=" + (err or "fault-position-not-reached"))
             ctx.count("A:flush-statements=%s" % ("1-3" if nd < 4 else "4-9" if nd < 10 else "10+"))
             if bad:
@@ -194,8 +214,10 @@ def jobs_b(ctx, deep=False):
     thorough = ctx.tier == "thorough" or deep
     jobs = []
     for c in range(20 if thorough else 6):
-        prof = ["conflict", "conflict", "nested", "uniform"][c % 4]
+        prof = ["conflict", "savepoint", "nested", "conflict", "savepoint", "uniform"][c % 6]
         jobs.append(("random", "C32:%d:%d:%s" % (ctx.seed, c, "deep" if deep else ctx.tier), 700 if thorough else 260, prof, 6, 24 if thorough else 16, 0.75))
+    for c in range(8 if thorough else 2):
+        jobs.append(("savepoint", "C32sp:%d:%d:%s" % (ctx.seed, c, "deep" if deep else ctx.tier), 500 if thorough else 220, 0.75))
     return jobs
 
 
@@ -216,11 +238,14 @@ def corpus(ctx):
         c = e.get("replay") or {}
         if c.get("part") != "A":
             continue
-        o = G.fault_case(c["setup"], c["work"], tuple(c["fault"]), raw=bool(c.get("raw")))
+        ff, nr, ne = split_fault(c["fault"])
+        o = G.fault_case(c["setup"], c["work"], ff, raw=bool(c.get("raw")), no_rollback=nr, nested=ne)
         bad = verdict(o)
         ctx.case(("corpus", c["work"], c["fault"]))
         if bad:
             key = "c32-A:" + bad[0][0] + cause_suffix(c["setup"], c["work"], o)
+            if c.get("raw"):
+                key = e["key"]  # a replay without the application discipline stands for its own finding
             ctx.count("oracle:" + key)
             ctx.violation(key, c, "; ".join("%s: %s" % b for b in bad)[:900])
 
@@ -229,10 +254,14 @@ def run(ctx, deep=False):
     from harness import lib_uow_gen as G
 
     ctx.rule = (
-        "part A: generated transactions over fifteen relationship families (harness/lib_graph.py) (0-2 committed setup rounds, then 3-8 mutations), failed at 2 seeded "
-        "(quick) / all (thorough) statement positions of their flushes, by one flush-event exception and (half of them) by a unique violation; "
-        "part B: seeded random single-class histories (conflicting primary keys, phantom rows, pk changes, savepoints) compared with the "
-        "model after every operation; non-trivial = the fault fired (A) / a lifecycle event fired (B)"
+        "part A: generated transactions over sixteen relationship families (harness/lib_graph.py) (0-2 committed setup rounds, then 3-8 mutations), failed at 2 seeded "
+        "(quick) / all (thorough) statement positions of their flushes, by flush-event and mapper-event exceptions (between statements), by the "
+        "same raised as a BaseException that is no Exception, and (half of them) by a unique violation; the application reacts with rollback(), "
+        "with commit() without a rollback (must be refused or commit nothing of the failed work), or - the work running inside a SAVEPOINT "
+        "with a flush after every step - by rolling back the SAVEPOINT only; "
+        "part B: seeded random single-class histories (conflicting primary keys, phantom rows, pk changes, savepoints) and structured "
+        "SAVEPOINT histories (2-5 flushes per SAVEPOINT touching the same instances: update, delete, re-add, then rollback / release / "
+        "failing flush) compared with the model after every operation (now incl. the expired flag); non-trivial = the fault fired (A) / a lifecycle event fired (B)"
     )
     ctx.trusted.append("driver errors are simulated by raising from the before_cursor_execute event instead of executing the statement")
     ctx.trusted.append("harness/lib_graph.py World (intended graph) for the rerun comparison; SQLite foreign_keys=ON")
@@ -263,7 +292,8 @@ def replay(ctx, obj):
     if c.get("part") == "A":
         from harness import lib_graph as G
 
-        o = G.fault_case(c["setup"], c["work"], tuple(c["fault"]), raw=bool(c.get("raw")))
+        ff, nr, ne = split_fault(c["fault"])
+        o = G.fault_case(c["setup"], c["work"], ff, raw=bool(c.get("raw")), no_rollback=nr, nested=ne)
         bad = verdict(o)
         print("replay C32/A work=%s fault=%s raised=%s" % (c["work"], c["fault"], o.get("error")))
         for b in bad:
